@@ -25,6 +25,7 @@ func checkC17(p *Prog, r *Report) {
 	r.rule("C17.zero-fill: SoftResource.check stores, for every attribute without a value, GetZeroValue(<that attribute's kind>, <that attribute's nullability>), and for every relationship without a value \"\" when it is to-one and an empty []string otherwise")
 	r.rule("C17.get-returns-stored: SoftResource.Get returns GetID() for \"id\", the value found in the data map under the key for fields of the type, and nil otherwise - nothing is transformed on the way out")
 	r.rule("C17.set-stores-given: SoftResource.Set stores the very value it was given (or the kind's typed nil for an untyped nil on a nullable attribute) and writes nothing reachable from that value (mod analysis: no write rooted at the value parameter); Wrapper.setField hands reflect.Value.Set exactly reflect.ValueOf(v) (or the zero value of the field's type for nil)")
+	r.rule("C17.new-pure / C17.new-result: Type.New stores nothing into its receiver (a memoised constructor would travel with Type.Copy and value copies to derived types) and returns either the receiver's NewFunc() or a newly allocated SoftResource whose Type is the receiver")
 	r.rule("C17.id: both implementations special-case \"id\" in Get and Set (Get returns GetID(), Set stores the string and returns)")
 	r.rule("C17.tag-agreement: Wrapper.getField and setField locate the field by comparing the key with the json tag")
 	r.rule("C17.equal (scenario evaluation of Equal): with one to-many relationship whose two values differ, Equal returns false unless both are empty - in particular when exactly one of them is empty; EqualStrict is the ID comparison followed by Equal")
@@ -36,6 +37,7 @@ func checkC17(p *Prog, r *Report) {
 	kt.checkNameTables(r)
 	checkSetGate(p, r, kt)
 	checkZeroFill(p, r)
+	checkTypeNew(p, r)
 	checkSoftGetSet(p, r)
 	checkWrapperGetSet(p, r)
 	checkEqualHelpers(p, r)
@@ -329,16 +331,7 @@ func checkWrapperGetSet(p *Prog, r *Report) {
 	r.floor("reflect.Set calls in setField", n, 1)
 	// tag agreement (both compare the key with the json tag): see C20.names; repeat here
 	for _, f := range []*ssa.Function{gf, sf} {
-		good := false
-		eachInstr(f, func(ins ssa.Instruction) {
-			if bo, ok := ins.(*ssa.BinOp); ok && (bo.Op == token.EQL || bo.Op == token.NEQ) {
-				for _, pr := range [][2]ssa.Value{{bo.X, bo.Y}, {bo.Y, bo.X}} {
-					if key, ok := tagGetOf(pr[1]); ok && key == "json" && pr[0] == ssa.Value(f.Params[1]) {
-						good = true
-					}
-				}
-			}
-		})
+		good := locatesByJSONTag(f, f.Params[1], 0)
 		r.decide(good, "C17.tag-agreement", funcName(f)+":json-tag", p.pos(f.Pos()), "field located by key == json tag", funcName(f)+" does not locate the field by its json tag")
 	}
 	// getField returns field.Interface() of the located field
@@ -688,4 +681,105 @@ func checkSoftCheckComplete(p *Prog, r *Report, prefix string) {
 		}
 	})
 	r.floor(prefix+": returns of SoftResource.check", n, 1)
+}
+
+// checkTypeNew implements C17.new: Type.New leaves its receiver alone and
+// returns the NewFunc's result or a SoftResource bound to the receiver.
+func checkTypeNew(p *Prog, r *Report) {
+	f := p.Fn("(*Type).New")
+	if f == nil {
+		r.fail("anchor (*Type).New not found")
+		return
+	}
+	r.fn(funcName(f))
+	isRecv := func(v ssa.Value) bool { return isParamOrItsCopy(v, f.Params[0]) }
+	// (a) no store into the receiver
+	nSt := 0
+	eachInstr(f, func(ins ssa.Instruction) {
+		st, ok := ins.(*ssa.Store)
+		if !ok {
+			return
+		}
+		a := st.Addr
+		for {
+			if fa, ok := a.(*ssa.FieldAddr); ok {
+				a = fa.X
+				continue
+			}
+			break
+		}
+		if isRecv(a) {
+			nSt++
+			r.bad("C17.new-pure", "(*Type).New:"+p.describe(st), p.pos(st.Pos()), "Type.New writes into its receiver: the change travels with every later copy of the type (Type.Copy and plain value copies), so types derived from it create resources of the original type")
+		}
+	})
+	if nSt == 0 {
+		r.ok("C17.new-pure", "(*Type).New:no-store", p.pos(f.Pos()), "no store into the receiver")
+	}
+	// (b) what is returned
+	nRet := 0
+	var classify func(v ssa.Value, seen map[ssa.Value]bool) string
+	classify = func(v ssa.Value, seen map[ssa.Value]bool) string {
+		if seen[v] {
+			return ""
+		}
+		seen[v] = true
+		switch x := v.(type) {
+		case *ssa.MakeInterface:
+			return classify(x.X, seen)
+		case *ssa.ChangeInterface:
+			return classify(x.X, seen)
+		case *ssa.Phi:
+			for _, e := range x.Edges {
+				if why := classify(e, seen); why != "" {
+					return why
+				}
+			}
+			return ""
+		case *ssa.Call:
+			if x.Call.IsInvoke() {
+				return "the result of an interface call"
+			}
+			if ld, ok := x.Call.Value.(*ssa.UnOp); ok && ld.Op == token.MUL {
+				if fa, ok := ld.X.(*ssa.FieldAddr); ok && isRecv(fa.X) {
+					if _, n := fieldRef(fa.X, fa.Field); n == "NewFunc" {
+						return ""
+					}
+				}
+			}
+			return "the result of a call other than the receiver's NewFunc"
+		case *ssa.Alloc:
+			if structName(deref(x.Type())) != "SoftResource" {
+				return "not a SoftResource"
+			}
+			bound := false
+			for _, ref := range *x.Referrers() {
+				if fa, ok := ref.(*ssa.FieldAddr); ok {
+					if _, n := fieldRef(fa.X, fa.Field); n == "Type" {
+						for _, r2 := range *fa.Referrers() {
+							if st, ok := r2.(*ssa.Store); ok && st.Addr == ssa.Value(fa) {
+								bound = isRecv(st.Val)
+							}
+						}
+					}
+				}
+			}
+			if !bound {
+				return "a SoftResource whose Type is not the receiver"
+			}
+			return ""
+		}
+		return "a value of unrecognised origin"
+	}
+	eachInstr(f, func(ins ssa.Instruction) {
+		ret, ok := ins.(*ssa.Return)
+		if !ok || len(ret.Results) != 1 {
+			return
+		}
+		nRet++
+		why := classify(ret.Results[0], map[ssa.Value]bool{})
+		r.decide(why == "", "C17.new-result", "(*Type).New:return@"+p.pos(ret.Pos()), p.pos(ret.Pos()), "returns the receiver's NewFunc() or a new SoftResource bound to the receiver",
+			"Type.New returns "+why+": a freshly created resource need not have the type's name and fields")
+	})
+	r.floor("returns of Type.New", nRet, 1)
 }
